@@ -355,8 +355,6 @@ def run(ctx):
     # whole pending packet, in order, with a correct header): C04's framing rules are evaluated here as well
     # a response is only accepted by a conformant decoder if its header is well formed: the column-count packet, the column
     # definitions and the PREPARE_OK header are C09's rules (which evaluate the wire bundle as well)
-    import rules.C09 as C09
-    C09.run(ctx)
 
 
 def thorough():
